@@ -612,7 +612,24 @@ func TestVerifC03Replay(t *testing.T) {
 			want[fmt.Sprintf("%d/%s", p.db, vfutil.Hex(p.key))] = p.val.Canon()
 		}
 		for _, ek := range k.ds.Keys {
-			vfc03.NormalizeStream(ek.Val, tg.DBs[c.mapDB(ek.DB)][string(c.dstKey(ek.Key))], c.tgt)
+			v := tg.DBs[c.mapDB(ek.DB)][string(c.dstKey(ek.Key))]
+			vfc03.NormalizeStream(ek.Val, v, c.tgt)
+			if c.flt.DbFiltered(ek.DB) || c.flt.KeyFiltered(ek.Key) {
+				continue
+			}
+			// C03: the key carries the source's absolute expiry. The expiry a request establishes on
+			// the target (target clock at the request + TTL, or the absolute time of PEXPIREAT /
+			// RESTORE ABSTTL) may be late by at most the time the entry's own requests had taken
+			// (`Allow`), never early (3 ms of accounting slack either way).
+			if v != nil && ek.ExpireAt != 0 && v.ExpAt != 0 {
+				drift := v.ExpAt - int64(ek.ExpireAt)
+				if drift >= -3 && drift <= v.Allow+3 {
+					if drift > maxDrift {
+						maxDrift = drift
+					}
+					v.ExpAt = int64(ek.ExpireAt)
+				}
+			}
 		}
 		got := map[string]string{}
 		for _, l := range tg.Snapshot() {
@@ -641,19 +658,6 @@ func TestVerifC03Replay(t *testing.T) {
 				continue
 			}
 			v := tg.DBs[c.mapDB(ek.DB)][string(dk)]
-			// C03: the key carries the source's absolute expiry. The expiry a request establishes on
-			// the target (target clock at the request + TTL, or the absolute time of PEXPIREAT /
-			// RESTORE ABSTTL) may be late by at most the time the entry's own requests had taken
-			// (`Allow`), never early (3 ms of accounting slack either way).
-			if v != nil && ek.ExpireAt != 0 && v.ExpAt != 0 {
-				drift := v.ExpAt - int64(ek.ExpireAt)
-				if drift >= -3 && drift <= v.Allow+3 {
-					if drift > maxDrift {
-						maxDrift = drift
-					}
-					v.ExpAt = int64(ek.ExpireAt)
-				}
-			}
 			if v != nil && v.Kind == "restored" {
 				s.Count("path_restore")
 				m := o.Keys[j]
